@@ -37,8 +37,8 @@ type Rep struct {
 	Key    *Rep   // map key
 	Fields []*Rep // tuple / UDT fields when Kind is "struct" or "ifaceslice" or "ifacemap"
 	ArrLen int    // length of an "array" representation (fixed when the first value is drawn); -1 = not fixed yet
-	names  []string
-	tags   []string
+	Names  []string // struct field names
+	Tags   []string // cassandra tags of struct fields ("" = none)
 }
 
 var (
@@ -122,8 +122,8 @@ func (r *Rep) BaseType() reflect.Type {
 	case "struct":
 		fs := make([]reflect.StructField, len(r.Fields))
 		for i, f := range r.Fields {
-			fs[i] = reflect.StructField{Name: r.names[i], Type: f.DeclType()}
-			if strings.HasPrefix(r.names[i], "T") { // tagged field: name does not match, tag does
+			fs[i] = reflect.StructField{Name: r.Names[i], Type: f.DeclType()}
+			if strings.HasPrefix(r.Names[i], "T") { // tagged field: name does not match, tag does
 				fs[i].Tag = reflect.StructTag(fmt.Sprintf(`cassandra:%q`, r.tagNames()[i]))
 			}
 		}
@@ -139,7 +139,7 @@ func (r *Rep) arrayLen() int {
 	return r.ArrLen
 }
 
-func (r *Rep) tagNames() []string { return r.tags }
+func (r *Rep) tagNames() []string { return r.Tags }
 
 func (r *Rep) needsPtr() bool { return r.Kind == "bigint" || r.Kind == "bigfloat" }
 
@@ -406,23 +406,23 @@ func drawFieldsRep(t *rapid.T, r *Rep, fts []datatype.DataType, names []string, 
 	switch mode {
 	case 0: // struct with one exported field per element
 		r.Kind = "struct"
-		r.names = make([]string, len(fts))
+		r.Names = make([]string, len(fts))
 		tags := make([]string, len(fts))
 		for i, ft := range fts {
 			r.Fields[i] = DrawRep(t, ft, false, fmt.Sprintf("%s/f%d", label, i))
 			if names != nil {
 				// field name matches the UDT field name case-insensitively, or carries a tag
 				if rapid.IntRange(0, 3).Draw(t, fmt.Sprintf("%s/tag%d", label, i)) == 0 {
-					r.names[i] = fmt.Sprintf("T%d", i)
+					r.Names[i] = fmt.Sprintf("T%d", i)
 					tags[i] = names[i]
 				} else {
-					r.names[i] = strings.ToUpper(names[i][:1]) + names[i][1:]
+					r.Names[i] = strings.ToUpper(names[i][:1]) + names[i][1:]
 				}
 			} else {
-				r.names[i] = fmt.Sprintf("F%d", i)
+				r.Names[i] = fmt.Sprintf("F%d", i)
 			}
 		}
-		r.tags = tags
+		r.Tags = tags
 	case 1: // []interface{} with per-element representations
 		r.Kind = "ifaceslice"
 		for i, ft := range fts {
